@@ -711,9 +711,94 @@ def r_transpose_pair(ctx: RuleCtx, col: Collector):
     eo = m.public_class("ElementOperation")
     no = m.public_class("NodalOperation")
 
+    class _Verdict(Exception):
+        def __init__(self, node, msg):
+            self.node, self.msg = node, msg
+
+    def matmul_spec(c, f):
+        """A contraction written as  X.reshape(..) @ M.reshape(..)  (data x with axes [*lead, element], operator with
+        axes [*lead, k]) is translated into the einsum it computes, by following which labelled axis ends up where.
+        A reshape that asks for the element / dof count at an end where that axis is not, or a product whose two
+        flattened operator groups are in different orders, is a recognised wrong construct."""
+        sn = m.self_name(f)
+        params = f.pos_params()
+        if len(params) != 1:
+            return None
+        size_label: Dict[str, str] = {}
+        for n in ast.walk(f.node):
+            if isinstance(n, ast.Assign) and isinstance(n.targets[0], ast.Tuple) and len(n.targets[0].elts) == 2 and \
+                    norm(n.value) == f"{sn}.dofconn.shape":
+                a, b = n.targets[0].elts
+                if isinstance(a, ast.Name) and isinstance(b, ast.Name):
+                    size_label[a.id], size_label[b.id] = "l", "k"
+        size_label[f"{sn}.domain.nel"] = "l"
+        size_label[f"{params[0]}.shape[-1]"] = "l"
+        size_label[f"{sn}.element_matrix.shape[-1]"] = "k"
+        size_label[f"{sn}.dofconn.shape[0]"] = "l"
+        size_label[f"{sn}.dofconn.shape[1]"] = "k"
+
+        def layout(e):
+            if isinstance(e, ast.Name) and e.id == params[0]:
+                return ["*", "l"]
+            if norm(e) == f"{sn}.element_matrix":
+                return ["*", "k"]
+            if isinstance(e, ast.Attribute) and e.attr == "T":
+                lay = layout(e.value)
+                if lay is None:
+                    return None
+                return [{"*": "*r", "*r": "*"}.get(t, t) for t in reversed(lay)]
+            if isinstance(e, ast.Call) and isinstance(e.func, ast.Attribute) and e.func.attr == "reshape":
+                lay = layout(e.func.value)
+                args = e.args[0].elts if len(e.args) == 1 and isinstance(e.args[0], ast.Tuple) else e.args
+                if lay is None or len(args) != 2 or len(lay) != 2:
+                    return None
+                a0, a1 = args
+                minus = lambda a: isinstance(a, ast.UnaryOp) and isinstance(a.op, ast.USub) and isinstance(a.operand, ast.Constant) and a.operand.value == 1  # noqa: E731
+                if minus(a0) and norm(a1) in size_label:
+                    want = size_label[norm(a1)]
+                    if lay[-1] != want:
+                        raise _Verdict(e, f"'{norm(e)}' asks for the {'element' if want == 'l' else 'dof'} count as the last axis, but "
+                                          f"that axis is the first one of '{norm(e.func.value)}': reshape does not transpose, it "
+                                          f"re-interprets the memory, so entries of different elements are mixed")
+                    return [{"*": "F", "*r": "Fr"}.get(lay[0], lay[0]), want]
+                if minus(a1) and norm(a0) in size_label:
+                    want = size_label[norm(a0)]
+                    if lay[0] != want:
+                        raise _Verdict(e, f"'{norm(e)}' asks for the {'element' if want == 'l' else 'dof'} count as the first axis, but "
+                                          f"that axis is the last one of '{norm(e.func.value)}': reshape does not transpose, it "
+                                          f"re-interprets the memory, so entries of different elements and operator rows are mixed")
+                    return [want, {"*": "F", "*r": "Fr"}.get(lay[1], lay[1])]
+                return None
+            if isinstance(e, ast.BinOp) and isinstance(e.op, ast.MatMult):
+                la, lb = layout(e.left), layout(e.right)
+                if la is None or lb is None:
+                    return None
+                if la[1] in ("*", "*r") or lb[0] in ("*", "*r"):
+                    return None      # un-flattened operands: not a 2-D product we can follow
+                if la[1] != lb[0]:
+                    raise _Verdict(e, f"the two factors of '{norm(e)}' flatten the leading operator dimensions in different orders "
+                                      f"({la[1]} against {lb[0]}; .T reverses all axes): for an operator with two or more leading "
+                                      f"dimensions the wrong entries are paired")
+                return [la[0], lb[1]]
+            return None
+        for n in ast.walk(f.node):
+            if isinstance(n, ast.BinOp) and isinstance(n.op, ast.MatMult):
+                lay = layout(n)        # may raise _Verdict
+                if lay is not None and set(lay) == {"l", "k"}:
+                    return n, f"...k,...l->{''.join(lay)}"
+        return None
+
     def spec(c, name):
         f = m.resolve_method(c, name)
         calls = _einsum_calls(ctx, f)
+        if len(calls) == 0:
+            mm = matmul_spec(c, f)
+            if mm is not None:
+                node, sp = mm
+                ops, out = parse_einsum(sp)
+                fake = ast.Call(func=ast.Name(id="einsum", ctx=ast.Load()), args=[ast.Constant(value=sp)], keywords=[])
+                ast.copy_location(fake, node)
+                return f, fake, _canon(ops, out, fixed_last=True)
         if len(calls) != 1:
             raise AnalysisError(f"{c.name}.{name}: expected exactly one literal einsum")
         ops, out = parse_einsum(calls[0].args[0].value)
@@ -726,8 +811,17 @@ def r_transpose_pair(ctx: RuleCtx, col: Collector):
             return f, calls[0], _canon(const + data, out, fixed_last=True)
         return f, calls[0], _canon(ops, out)
     for (ca, na, cb, nb) in ((eo, "_response", no, "_sensitivity"), (eo, "_sensitivity", no, "_response")):
-        fa, calla, sa = spec(ca, na)
-        fb, callb, sb_ = spec(cb, nb)
+        try:
+            fa, calla, sa = spec(ca, na)
+            fb, callb, sb_ = spec(cb, nb)
+        except _Verdict as v:
+            g = m.resolve_method(cb, nb)
+            for cc, nn in ((ca, na), (cb, nb)):
+                h = m.resolve_method(cc, nn)
+                if any(x is v.node for x in ast.walk(h.node)):
+                    g = h
+            col.bad(g.cls.name if g.cls else "", g.rel, line_of(v.node), f"{g.short}: contraction written as a matrix product", v.msg)
+            continue
         construct = f"{ca.name}.{na} '{calla.args[0].value}' vs {cb.name}.{nb} '{callb.args[0].value}'"
         if sa == sb_:
             col.ok(ca.name, fa.rel, line_of(calla), construct, "same contraction")
